@@ -399,9 +399,12 @@ static void tpm2_fresh(const char *profile) {
 static Rsp tpm2_startup(Buf *b, uint16_t su) { cmd_begin(b, ST_NO_SESSIONS, CC_Startup); b_u16(b, su); return run(b); }
 static Rsp tpm2_shutdown(Buf *b, uint16_t su) { cmd_begin(b, ST_NO_SESSIONS, CC_Shutdown); b_u16(b, su); return run(b); }
 
+static int g_tpm2_statics;   /* set by TPM 2 scenarios that want a power cycle to look like a new process */
 /* power cut: terminate, MainInit again from storage (store callback content) */
+extern void verif_new_process_statics(void);
 static TPM_RESULT tpm2_powercycle(void) {
     TPMLIB_Terminate();
+    if (g_tpm2_statics) verif_new_process_statics();
     blob_clear(&g_store[ST_VOL]);
     return TPMLIB_MainInit();
 }
